@@ -1466,10 +1466,10 @@ class Discovery(object):
                     self.logger.debug('No callback left for %s, unsubscribe '
                                       'on directory', replica)
                     self.discovery_computation.send_to_directory(
-                        SubscribeComputationMessage(replica, False))
+                        SubscribeReplicaMessage(replica, False))
                     # remove all knowledge of current replicas as we are not
                     #  subscribed any more
-                    self._replicas_data.pop(replica)
+                    self._replicas_data.pop(replica, None)
             elif cb is not None:
                 raise ValueError(
                     'No corresponding callback found for replica %s : %s',
@@ -1479,7 +1479,7 @@ class Discovery(object):
                 SubscribeReplicaMessage(replica, False))
             # remove all knowledge of current replicas as we are not
             #  subscribed any more
-            self._replicas_data.pop(replica)
+            self._replicas_data.pop(replica, None)
         return removed
 
     def replica_agents(self, replica: ComputationName) -> Set[AgentName]:
